@@ -199,7 +199,9 @@ class C17(Scenario):
     budgets = {"quick": 20000, "thorough": 400000}
     wall_caps = {"quick": 110, "thorough": 1500}
     rule = ("profile `wrappers`: all orders of named / cached / serializable (each subset, each permutation) on a "
-            "function and on a string; `shared-memo`: one cached wrapper shared by several nodes of two trees, a seeded "
+            "function and on a string, or a seeded sequence of direct calls of one wrapper (cached, named, pickled, copied, plain) "
+            "with positional / defaulted / keyword arguments, equal and different ones interleaved, compared call by call with "
+            "the bare function; `shared-memo`: one cached wrapper shared by several nodes of two trees, a seeded "
             "interleaving of row fills (identical record object repeated, equal copy, different record) and vector "
             "batches (dict / frame / recarray; repeated, equal copy, different) compared after every step with a twin "
             "system that uses the plain function; `string-twin`: a seeded expression over record fields given as a "
@@ -211,11 +213,15 @@ class C17(Scenario):
                    "bare scalars are only used with single-variable expressions"]
     expected_faults = ["memo_interleave"]
     expected_probes = ["memo_repeat_identical", "memo_repeat_equal_copy", "memo_change", "memo_array_batch", "memo_equal_value_other_type", "memo_function_fault", "string_first_scalar",
-                       "string_first_object", "string_first_dict", "wrapper_orders", "wrapper_travelled", "memo_mutated_in_place", "memo_batch_mutated_in_place", "memo_signed_zero", "string_field_named_like_builtin", "memo_fields_reordered"]
+                       "string_first_object", "string_first_dict", "wrapper_orders", "wrapper_travelled", "memo_mutated_in_place", "memo_batch_mutated_in_place", "memo_signed_zero", "string_field_named_like_builtin", "memo_fields_reordered",
+                       "call_repeated", "call_same_datum_other_options", "call_keyword_arguments", "call_nested_result"]
 
     # ------------------------------------------------------------------ generation
     def generate(self, rng, tier, profile):
         if profile == "wrappers":
+            c = rng.fork("calls")
+            if c.chance(0.8):
+                return self.gen_calls(c)
             return {"kind": "wrappers", "steps": [{"op": "orders", "base": b} for b in ("function", "string", "def")], "records": []}
         d = rng.fork("data")
         s = rng.fork("schedule")
@@ -311,12 +317,111 @@ class C17(Scenario):
         return {"kind": "string-twin", "spec": sp, "var": sorted(allv)[0], "records": [specmod.enc_record(r) for r in recs], "steps": steps,
                 "rename": rename}
 
+    def gen_calls(self, c):
+        """direct calls of one wrapper: positional, defaulted and keyword arguments, equal and different ones interleaved"""
+        data = [1.5, -2.0, 0.0, 3, 2.5, True]
+        ks = [None, None, 1.0, 2.0, 2, -1.0]
+        ms = [None, None, None, 0.5, 1]
+        steps = []
+        prev = None
+        for _ in range(c.randint(4, 14)):
+            if prev is not None and c.chance(0.25):
+                st = dict(prev)  # the same call again
+            elif prev is not None and c.chance(0.5):
+                # the same datum, another optional argument (or the same one spelt differently)
+                st = dict(prev)
+                what = c.pick(["k", "m", "kmode"])
+                if what == "k":
+                    st["k"] = c.pick(ks)
+                elif what == "m":
+                    st["m"] = c.pick(ms)
+                else:
+                    st["kmode"] = "kw" if st["kmode"] == "pos" else "pos"
+            else:
+                st = {"op": "call", "v": c.randrange(len(data)), "k": c.pick(ks), "kmode": c.pick(["pos", "kw"]), "m": c.pick(ms)}
+            steps.append(st)
+            prev = st
+        return {"kind": "calls", "wrap": c.pick(["cached", "cached", "named-cached", "plain", "cached-pickled", "cached-copied"]), "data": data,
+                # what the function returns: a number, or a nested structure that the caller then modifies in place, at depth
+                "returns": c.pick(["number", "number", "nested"]), "steps": steps, "records": []}
+
     # ------------------------------------------------------------------ execution
+    def run_calls(self, case, w, R):
+        import copy as _copy
+        import pickle
+
+        from histogrammar.util import cached, named, serializable
+
+        src = "lambda d, k=1.0, *, m=0.0: d * k + m"
+        if case.get("returns") == "nested":
+            src = 'lambda d, k=1.0, *, m=0.0: {"v": [d * k + m, [d]], "w": (d, [k])}'
+            w.bump("probe_call_nested_result")
+        raw = eval(src, {})
+        twin = eval(src, {})
+        wrap = case["wrap"]
+
+        def make():
+            f = serializable(raw) if wrap == "plain" else cached(raw)
+            if wrap == "named-cached":
+                f = named("nm", f)
+            if wrap == "cached-pickled":
+                f = pickle.loads(pickle.dumps(f))
+            if wrap == "cached-copied":
+                f = _copy.deepcopy(f)
+            return f
+
+        o = call(make)
+        if not o.ok:
+            raise self.violation("util", "wrap", "exception:%s" % type(o.exc).__name__, "building the %s wrapper raised %s" % (wrap, o.describe()), 0)
+        f = o.value
+        prev = None
+        nrep = nchg = 0
+        for si, st in enumerate(case["steps"]):
+            d = case["data"][st["v"]]
+            a, kw = [d], {}
+            if st["k"] is not None:
+                if st["kmode"] == "pos":
+                    a.append(st["k"])
+                else:
+                    kw["k"] = st["k"]
+            if st["m"] is not None:
+                kw["m"] = st["m"]
+            want = twin(*a, **kw)
+            got = call(f, *a, **kw)
+            if prev is not None and prev["v"] == st["v"]:
+                if (prev["k"], prev["m"]) == (st["k"], st["m"]):
+                    nrep += 1
+                    w.bump("probe_call_repeated")
+                else:
+                    nchg += 1
+                    w.bump("probe_call_same_datum_other_options")
+                    w.bump("fault_memo_interleave")
+            if kw:
+                w.bump("probe_call_keyword_arguments")
+            if not got.ok:
+                raise self.violation("CachedFcn" if wrap != "plain" else "UserFcn", "call", "exception:%s" % type(got.exc).__name__,
+                                     "call %r %r of the %s wrapper raised %s" % (a, kw, wrap, got.describe()), si)
+            if type(got.value) is not type(want) or repr(got.value) != repr(want):
+                raise self.violation("CachedFcn" if wrap != "plain" else "UserFcn", "call", "content:return-value",
+                                     "call %r %r of the %s wrapper returned %r, the function returns %r" % (a, kw, wrap, got.value, want), si)
+            if case.get("returns") == "nested":
+                # the caller owns what it was handed, all of it
+                got.value["v"][1].append("caller")
+                got.value["v"][0] = None
+                got.value["w"][1].clear()
+            prev = st
+            w.record_step(st)
+        R["nontrivial"] = len(case["steps"]) >= 4 and nrep >= 1 and nchg >= 1
+        R["shape"] = observe.obs_hash({"wrap": wrap, "steps": [[s_["v"], s_["k"], s_["kmode"], s_["m"]] for s_ in case["steps"]]})
+        R["units"] = len(case["steps"])
+
     def run(self, case, w, R):
         kind = case["kind"]
         R["shape"] = kind
         if kind == "wrappers":
             return self.run_wrappers(case, w, R)
+        if kind == "calls":
+            return self.run_calls(case, w, R)
         if kind == "shared-memo":
             return self.run_memo(case, w, R)
         return self.run_string(case, w, R)
